@@ -55,8 +55,12 @@ func sortOf1(t types.Type) *Sort {
 	case *types.Struct:
 		name := dtName(t)
 		fields := make([]SortField, u.NumFields())
+		was := map[string]string{}
+		for o, n := range fieldRenames(t) {
+			was[n] = o
+		}
 		for i := 0; i < u.NumFields(); i++ {
-			fields[i] = SortField{Go: u.Field(i).Name(), Sort: sortOf(u.Field(i).Type())}
+			fields[i] = SortField{Go: u.Field(i).Name(), Acc: was[u.Field(i).Name()], Sort: sortOf(u.Field(i).Type())}
 		}
 		return NewDT(name, fields)
 	case *types.Tuple:
